@@ -16,6 +16,7 @@ type Locker interface {
 type Mutex struct {
 	locked bool
 	holder int
+	hb     uint64
 }
 
 func (m *Mutex) Lock() {
@@ -26,6 +27,7 @@ func (m *Mutex) Lock() {
 	x.YieldFn(func() bool { return !m.locked }, func() string { return fmt.Sprintf("Lock mutex@%p", m) })
 	m.locked = true
 	m.holder = x.Me().ID
+	x.Touch(&m.hb, 1)
 }
 
 func (m *Mutex) TryLock() bool {
@@ -35,10 +37,12 @@ func (m *Mutex) TryLock() bool {
 	}
 	x.Yield(nil, "TryLock")
 	if m.locked {
+		x.Touch(&m.hb, 3)
 		return false
 	}
 	m.locked = true
 	m.holder = x.Me().ID
+	x.Touch(&m.hb, 1)
 	return true
 }
 
@@ -51,6 +55,7 @@ func (m *Mutex) Unlock() {
 		panic("sync: unlock of unlocked mutex")
 	}
 	m.locked = false
+	x.Touch(&m.hb, 2)
 	// releasing is not a scheduling point by itself: the next visible operation of this
 	// thread is, and no other thread can observe the difference earlier.
 }
@@ -60,6 +65,7 @@ func (m *Mutex) Unlock() {
 type RWMutex struct {
 	writer  bool
 	readers int
+	hb      uint64
 }
 
 func (m *RWMutex) Lock() {
@@ -69,6 +75,7 @@ func (m *RWMutex) Lock() {
 	}
 	x.YieldFn(func() bool { return !m.writer && m.readers == 0 }, func() string { return fmt.Sprintf("Lock rwmutex@%p", m) })
 	m.writer = true
+	x.Touch(&m.hb, 4)
 }
 
 func (m *RWMutex) Unlock() {
@@ -80,6 +87,7 @@ func (m *RWMutex) Unlock() {
 		panic("sync: Unlock of unlocked RWMutex")
 	}
 	m.writer = false
+	x.Touch(&m.hb, 5)
 }
 
 func (m *RWMutex) RLock() {
@@ -89,6 +97,7 @@ func (m *RWMutex) RLock() {
 	}
 	x.YieldFn(func() bool { return !m.writer }, func() string { return fmt.Sprintf("RLock rwmutex@%p", m) })
 	m.readers++
+	x.Touch(&m.hb, 6)
 }
 
 func (m *RWMutex) RUnlock() {
@@ -100,6 +109,7 @@ func (m *RWMutex) RUnlock() {
 		panic("sync: RUnlock of unlocked RWMutex")
 	}
 	m.readers--
+	x.Touch(&m.hb, 7)
 }
 
 func (m *RWMutex) RLocker() Locker { return (*rlocker)(m) }
@@ -112,6 +122,7 @@ func (r *rlocker) Unlock() { (*RWMutex)(r).RUnlock() }
 // Once mirrors sync.Once: concurrent callers block until the first call has returned.
 type Once struct {
 	state int // 0 new, 1 running, 2 done
+	hb    uint64
 }
 
 func (o *Once) Do(f func()) {
@@ -126,19 +137,30 @@ func (o *Once) Do(f func()) {
 	}
 	x.YieldFn(func() bool { return o.state != 1 }, func() string { return fmt.Sprintf("Once.Do@%p", o) })
 	if o.state == 2 {
+		x.Touch(&o.hb, 8)
 		return
 	}
 	o.state = 1
-	defer func() { o.state = 2 }()
+	x.Touch(&o.hb, 9)
+	defer func() {
+		o.state = 2
+		if x2 := vrt.Cur(); x2 != nil && !x2.Aborting() {
+			x2.Touch(&o.hb, 10)
+		}
+	}()
 	f()
 }
 
 type WaitGroup struct {
-	n int
+	n  int
+	hb uint64
 }
 
 func (wg *WaitGroup) Add(d int) {
 	wg.n += d
+	if x := vrt.Cur(); x != nil && !x.Aborting() {
+		x.Touch(&wg.hb, 11)
+	}
 	if wg.n < 0 {
 		panic("sync: negative WaitGroup counter")
 	}
@@ -152,6 +174,7 @@ func (wg *WaitGroup) Wait() {
 		return
 	}
 	x.YieldFn(func() bool { return wg.n == 0 }, func() string { return fmt.Sprintf("WaitGroup.Wait@%p", wg) })
+	x.Touch(&wg.hb, 12)
 }
 
 // Map mirrors the subset of sync.Map used by the repository, with insertion-ordered
@@ -159,6 +182,7 @@ func (wg *WaitGroup) Wait() {
 type Map struct {
 	keys []any
 	vals map[any]any
+	hb   uint64
 }
 
 func (m *Map) point(desc string) bool {
@@ -167,6 +191,7 @@ func (m *Map) point(desc string) bool {
 		return x == nil
 	}
 	x.Yield(nil, desc)
+	x.Touch(&m.hb, 13)
 	return true
 }
 
